@@ -168,7 +168,7 @@ Proof.
 Qed.
 
 (* ------------------------------------------------------------------ lint_file *)
-Lemma linted_unfold q abs pats p : linted q abs pats p = negb (gate_hard q (q_excl_above_root q) abs p) && negb (is_ignored q pats p).
+Lemma linted_unfold q abs pats cp p : linted q abs pats cp p = negb (gate_hard q (q_excl_above_root q) abs p) && negb (is_ignored q pats (cp p)).
 Proof. unfold linted. rewrite lint_gates_spec. cbn [existsb gate_fires]. now rewrite orb_false_r, negb_orb. Qed.
 
 Lemma spec_ok_unfold S p : spec_ok S p = hard_ok p && negb (spec_ignored S p).
@@ -176,6 +176,28 @@ Proof. reflexivity. Qed.
 
 Lemma path_ok_comps p : path_ok p = true -> comps_ok p.
 Proof. unfold path_ok. rewrite andb_true_iff, negb_true_iff. intros [H1 H2]. split; [now destruct p|exact H2]. Qed.
+
+(* the spelling of the target cannot matter: the flag is off, or the target is spelled absolutely, or relative to the project root *)
+Definition spell_clear (q : cquirks) (sp : spelling) : Prop :=
+  q_ignore_cwd_spelling q = false \/ sp = SAbs \/ sp = SInside [].
+
+Lemma relpath_nil p : relpath [] p = p.
+Proof. now destruct p. Qed.
+
+Lemma skipn_length_app {A} (l l' : list A) : skipn (List.length l) (l ++ l') = l'.
+Proof. induction l as [|x l IH]; [reflexivity|exact IH]. Qed.
+
+Lemma chk_file_id q sp p : spell_clear q sp -> chk_file q sp p = p.
+Proof.
+  unfold chk_file, cwd_spelling_matters. intros [-> | [-> | ->]]; [reflexivity| |];
+    destruct (q_ignore_cwd_spelling q && negb ignore_rerooted); try reflexivity; cbn [spelled]; apply relpath_nil.
+Qed.
+
+Lemma chk_dir_id q sp rel below : spell_clear q sp -> chk_dir q sp rel (rel ++ below) = rel ++ below.
+Proof.
+  unfold chk_dir, cwd_spelling_matters. intros [-> | [-> | ->]]; [reflexivity| |];
+    destruct (q_ignore_cwd_spelling q && negb ignore_rerooted); try reflexivity; cbn [spelled]; now rewrite relpath_nil, skipn_length_app.
+Qed.
 
 Record clear (q : cquirks) (abs : list string) (S : tsources) : Prop := {
   cl_abs : abs_clear q abs;
@@ -189,116 +211,182 @@ Proof. unfold tsources_ok. rewrite !andb_true_iff. now intros [[[H _] _] _]. Qed
 Lemma tsources_one_config S : tsources_ok S = true -> one_config S = true.
 Proof. unfold tsources_ok. rewrite !andb_true_iff. now intros [_ H]. Qed.
 
-(* a file named explicitly reaches the rules iff the specification says it should *)
-Theorem linted_exact_gen q abs S p :
+(* a file named explicitly reaches the rules iff the specification says it should; cp p = the path the ignore patterns see *)
+Theorem linted_exact_gen2 q abs S cp p :
   clear q abs S -> name_clear q p -> tsources_ok S = true -> path_ok p = true ->
-  linted q abs (load_patterns q (render_sources S)) p = spec_ok S p.
+  comps_ok (cp p) -> spec_ignored S (cp p) = spec_ignored S p ->
+  linted q abs (load_patterns q (render_sources S)) cp p = spec_ok S p.
 Proof.
-  intros [Ha Hp Hj Ht] Hn HS Hpo. assert (Hc := path_ok_comps _ Hpo).
+  intros [Ha Hp Hj Ht] Hn HS Hpo Hcc Hcp. assert (Hc := path_ok_comps _ Hpo).
   rewrite linted_unfold, spec_ok_unfold, load_patterns_spec; [|exact Hj|exact Ht|now apply tsources_one_config|now apply tsources_lines_ok].
-  rewrite is_ignored_spec by assumption. rewrite gate_hard_spec; [|exact Ha|exact Hn|exact (proj1 Hc)].
+  rewrite is_ignored_spec by assumption. rewrite Hcp. rewrite gate_hard_spec; [|exact Ha|exact Hn|exact (proj1 Hc)].
   now rewrite negb_involutive.
 Qed.
 
-Theorem run_files_exact_gen q abs S ps :
-  clear q abs S -> (forall p, In p ps -> name_clear q p) -> tsources_ok S = true -> forallb path_ok ps = true ->
-  run_files q abs (render_sources S) ps = spec_files S ps.
+Theorem linted_exact_gen q abs S cp p :
+  clear q abs S -> name_clear q p -> tsources_ok S = true -> path_ok p = true -> cp p = p ->
+  linted q abs (load_patterns q (render_sources S)) cp p = spec_ok S p.
 Proof.
-  intros Hcl Hn HS Hps. unfold run_files, spec_files. apply filter_ext_in. intros p Hp.
-  rewrite forallb_forall in Hps. apply linted_exact_gen; [exact Hcl|now apply Hn|exact HS|now apply Hps].
+  intros Hcl Hn HS Hpo Hcp. apply linted_exact_gen2; try assumption; rewrite Hcp; [now apply path_ok_comps|reflexivity].
+Qed.
+
+Theorem run_files_exact_gen q abs sp S ps :
+  clear q abs S -> spell_clear q sp -> (forall p, In p ps -> name_clear q p) -> tsources_ok S = true -> forallb path_ok ps = true ->
+  run_files q abs sp (render_sources S) ps = spec_files S ps.
+Proof.
+  intros Hcl Hsp Hn HS Hps. unfold run_files, spec_files. apply filter_ext_in. intros p Hp.
+  rewrite forallb_forall in Hps. apply linted_exact_gen; [exact Hcl|now apply Hn|exact HS|now apply Hps|now apply chk_file_id].
 Qed.
 
 (* a directory target *)
-Theorem run_dir_exact_gen q rec abs rel t S :
-  clear q abs S -> (forall p, In p (all_files rec rel t) -> name_clear q p) ->
+Theorem run_dir_exact_gen q rec abs sp rel t S :
+  clear q abs S -> spell_clear q sp -> (forall p, In p (all_files rec rel t) -> name_clear q p) ->
   rel_ok rel = true -> target_ok t = true -> tsources_ok S = true ->
-  run_dir q rec abs rel t (render_sources S) = spec_dir rec rel t S.
+  run_dir q rec abs sp rel t (render_sources S) = spec_dir rec rel t S.
 Proof.
-  intros Hcl Hn Hrel Ht HS. unfold run_dir, spec_dir. rewrite seq_collect_recursive_spec. unfold rel_ok in Hrel. apply andb_true_iff in Hrel.
+  intros Hcl Hsp Hn Hrel Ht HS. unfold run_dir, spec_dir. rewrite seq_collect_recursive_spec. unfold rel_ok in Hrel. apply andb_true_iff in Hrel.
   destruct Hrel as [Hrc Hre]. apply negb_true_iff in Hre.
   rewrite walk_filter by exact Hre. rewrite filter_filter. apply filter_ext_in. intros p Hp.
+  destruct (all_files_shape _ _ _ _ Hp) as [below [Hb Ep]].
   assert (Hpo : path_ok p = true).
-  { unfold path_ok. rewrite (all_files_comps _ _ _ _ Hrc Ht Hp), andb_true_r.
-    destruct (all_files_shape _ _ _ _ Hp) as [below [Hb ->]]. destruct rel, below; try reflexivity. congruence. }
-  rewrite (linted_exact_gen q abs S p Hcl (Hn p Hp) HS Hpo). rewrite spec_ok_unfold. now destruct (hard_ok p).
+  { unfold path_ok. rewrite (all_files_comps _ _ _ _ Hrc Ht Hp), andb_true_r. subst p. destruct rel, below; try reflexivity. congruence. }
+  rewrite (linted_exact_gen q abs S _ p Hcl (Hn p Hp) HS Hpo); [|subst p; now apply chk_dir_id].
+  rewrite spec_ok_unfold. now destruct (hard_ok p).
+Qed.
+
+(* ------------------------------------------------------------------ confinement of q_ignore_cwd_spelling *)
+(* patterns that look at the file name only are decided identically on any spelling of the path *)
+Definition name_only (p : pat) : bool := match p with PSuffix _ | PAnySuffix _ => true | _ => false end.
+
+Lemma spec_ignored_name_only S pre pre' below :
+  forallb name_only (spec_pats S) = true -> below <> [] -> spec_ignored S (pre ++ below) = spec_ignored S (pre' ++ below).
+Proof.
+  intros H Hb. unfold spec_ignored. apply existsb_ext_in. intros pt Hin. rewrite forallb_forall in H. specialize (H pt Hin).
+  destruct pt; try discriminate H; cbn [spec_match]; now rewrite !last_app_ne by exact Hb.
+Qed.
+
+(* whatever the working directory and the spelling of the target: with name-only patterns the directory run is exact
+   (q_ignore_cwd_spelling may be on) *)
+Theorem run_dir_exact_name_only q rec abs sp rel t S :
+  clear q abs S -> (forall p, In p (all_files rec rel t) -> name_clear q p) ->
+  forallb name_only (spec_pats S) = true -> forallb comp_ok (spelled sp rel) = true ->
+  rel_ok rel = true -> target_ok t = true -> tsources_ok S = true ->
+  run_dir q rec abs sp rel t (render_sources S) = spec_dir rec rel t S.
+Proof.
+  intros Hcl Hn Hno Hsc Hrel Ht HS. unfold run_dir, spec_dir. rewrite seq_collect_recursive_spec. unfold rel_ok in Hrel. apply andb_true_iff in Hrel.
+  destruct Hrel as [Hrc Hre]. apply negb_true_iff in Hre.
+  rewrite walk_filter by exact Hre. rewrite filter_filter. apply filter_ext_in. intros p Hp.
+  destruct (all_files_shape _ _ _ _ Hp) as [below [Hb Ep]].
+  assert (Hpc := all_files_comps _ _ _ _ Hrc Ht Hp).
+  assert (Hpo : path_ok p = true).
+  { unfold path_ok. rewrite Hpc, andb_true_r. subst p. destruct rel, below; try reflexivity. congruence. }
+  assert (Hbc : forallb comp_ok below = true) by (subst p; rewrite forallb_app in Hpc; now apply andb_true_iff in Hpc).
+  rewrite (linted_exact_gen2 q abs S _ p Hcl (Hn p Hp) HS Hpo).
+  - rewrite spec_ok_unfold. now destruct (hard_ok p).
+  - subst p. unfold chk_dir. destruct (cwd_spelling_matters q); [|now apply path_ok_comps].
+    destruct sp; [now apply path_ok_comps| |]; rewrite skipn_length_app; (split; [destruct (spelled _ rel), below; try discriminate; congruence|]);
+      rewrite forallb_app, Hsc, Hbc; reflexivity.
+  - subst p. unfold chk_dir. destruct (cwd_spelling_matters q); [|reflexivity].
+    destruct sp; [reflexivity| |]; rewrite skipn_length_app; now apply spec_ignored_name_only.
 Qed.
 
 (* the parallel entry point lints what the sequential one lints *)
-Lemma run_dir_par_eq q rec abs rel t s : run_dir_par q rec abs rel t s = run_dir q rec abs rel t s.
+Lemma run_dir_par_eq q rec abs sp rel t s : run_dir_par q rec abs sp rel t s = run_dir q rec abs sp rel t s.
 Proof. unfold run_dir_par, run_dir. now rewrite seq_collect_recursive_spec, par_collect_recursive_spec. Qed.
 
 (* ------------------------------------------------------------------ corollary 1: all flags off, every input *)
 Definition flags_off (q : cquirks) : Prop :=
   q_excl_above_root q = false /\ q_excl_filename q = false /\ q_dirpat_prefix q = false /\ q_dirpat_filename q = false
-  /\ q_doublestar_needs_dir q = false /\ q_ti_shadows_config q = false /\ q_json_ignore_unused q = false.
+  /\ q_doublestar_needs_dir q = false /\ q_ti_shadows_config q = false /\ q_json_ignore_unused q = false
+  /\ q_ignore_cwd_spelling q = false.
 
 Lemma flags_off_clear q abs S : flags_off q -> clear q abs S.
 Proof.
-  intros [H1 [H2 [H3 [H4 [H5 [H6 H7]]]]]]. split; [now left|left; now repeat split|now left|now left].
+  intros [H1 [H2 [H3 [H4 [H5 [H6 [H7 H8]]]]]]]. split; [now left|left; now repeat split|now left|now left].
 Qed.
 
-Theorem run_dir_exact q rec abs rel t S :
+Lemma flags_off_spell q sp : flags_off q -> spell_clear q sp.
+Proof. intro H. left. apply H. Qed.
+
+Theorem run_dir_exact q rec abs sp rel t S :
   flags_off q -> rel_ok rel = true -> target_ok t = true -> tsources_ok S = true ->
-  run_dir q rec abs rel t (render_sources S) = spec_dir rec rel t S.
+  run_dir q rec abs sp rel t (render_sources S) = spec_dir rec rel t S.
 Proof.
-  intros Hq. apply run_dir_exact_gen; [now apply flags_off_clear|]. intros p _. left. apply Hq.
+  intros Hq. apply run_dir_exact_gen; [now apply flags_off_clear|now apply flags_off_spell|]. intros p _. left. apply Hq.
 Qed.
 
-Theorem run_dir_par_exact q rec abs rel t S :
+Theorem run_dir_par_exact q rec abs sp rel t S :
   flags_off q -> rel_ok rel = true -> target_ok t = true -> tsources_ok S = true ->
-  run_dir_par q rec abs rel t (render_sources S) = spec_dir rec rel t S.
+  run_dir_par q rec abs sp rel t (render_sources S) = spec_dir rec rel t S.
 Proof. rewrite run_dir_par_eq. apply run_dir_exact. Qed.
 
-Theorem run_files_exact q abs S ps :
+Theorem run_files_exact q abs sp S ps :
   flags_off q -> tsources_ok S = true -> forallb path_ok ps = true ->
-  run_files q abs (render_sources S) ps = spec_files S ps.
+  run_files q abs sp (render_sources S) ps = spec_files S ps.
 Proof.
-  intros Hq. apply run_files_exact_gen; [now apply flags_off_clear|]. intros p _. left. apply Hq.
+  intros Hq. apply run_files_exact_gen; [now apply flags_off_clear|now apply flags_off_spell|]. intros p _. left. apply Hq.
 Qed.
 
-(* the vector claimed for the current tree has every flag off: the statements hold for it without any guard *)
-Lemma actual_flags_off : flags_off collect_actual.
-Proof. repeat split. Qed.
+Definition dirs_ok (dirs : list (list string * tree)) : bool :=
+  forallb (fun d => rel_ok (fst d) && target_ok (snd d)) dirs.
 
-Theorem run_dir_exact_actual rec abs rel t S :
-  rel_ok rel = true -> target_ok t = true -> tsources_ok S = true ->
-  run_dir collect_actual rec abs rel t (render_sources S) = spec_dir rec rel t S.
-Proof. apply run_dir_exact. exact actual_flags_off. Qed.
+(* several targets in one run (execute_linting_on_paths), sequential or parallel *)
+Theorem run_paths_exact q rec par abs sp S files dirs :
+  flags_off q -> tsources_ok S = true -> forallb path_ok files = true -> dirs_ok dirs = true ->
+  run_paths q rec par abs sp (render_sources S) files dirs = spec_paths rec S files dirs.
+Proof.
+  intros Hq HS Hf Hd. unfold run_paths, spec_paths. rewrite run_files_exact by assumption. f_equal.
+  unfold dirs_ok in Hd. rewrite forallb_forall in Hd. apply flat_map_ext_Forall. apply Forall_forall. intros d Hin.
+  specialize (Hd d Hin). apply andb_true_iff in Hd. destruct Hd as [H1 H2].
+  destruct par; [now apply run_dir_par_exact|now apply run_dir_exact].
+Qed.
 
-Theorem run_dir_par_exact_actual rec abs rel t S :
-  rel_ok rel = true -> target_ok t = true -> tsources_ok S = true ->
-  run_dir_par collect_actual rec abs rel t (render_sources S) = spec_dir rec rel t S.
-Proof. apply run_dir_par_exact. exact actual_flags_off. Qed.
+(* the vector claimed for the current tree: only q_ignore_cwd_spelling is on, so the statements hold for it whenever the
+   target is spelled absolutely or relative to the project root (no other guard) *)
+Definition plain_spelling (sp : spelling) : Prop := sp = SAbs \/ sp = SInside [].
 
-Theorem run_files_exact_actual abs S ps :
-  tsources_ok S = true -> forallb path_ok ps = true ->
-  run_files collect_actual abs (render_sources S) ps = spec_files S ps.
-Proof. apply run_files_exact. exact actual_flags_off. Qed.
+Lemma actual_clear abs S : clear collect_actual abs S.
+Proof. split; [now left|left; now repeat split|now left|now left]. Qed.
+
+Theorem run_dir_exact_actual rec abs sp rel t S :
+  plain_spelling sp -> rel_ok rel = true -> target_ok t = true -> tsources_ok S = true ->
+  run_dir collect_actual rec abs sp rel t (render_sources S) = spec_dir rec rel t S.
+Proof. intro Hsp. apply run_dir_exact_gen; [apply actual_clear|now right|]. intros p _. now left. Qed.
+
+Theorem run_dir_par_exact_actual rec abs sp rel t S :
+  plain_spelling sp -> rel_ok rel = true -> target_ok t = true -> tsources_ok S = true ->
+  run_dir_par collect_actual rec abs sp rel t (render_sources S) = spec_dir rec rel t S.
+Proof. rewrite run_dir_par_eq. apply run_dir_exact_actual. Qed.
+
+Theorem run_files_exact_actual abs sp S ps :
+  plain_spelling sp -> tsources_ok S = true -> forallb path_ok ps = true ->
+  run_files collect_actual abs sp (render_sources S) ps = spec_files S ps.
+Proof. intro Hsp. apply run_files_exact_gen; [apply actual_clear|now right|]. intros p _. now left. Qed.
 
 (* an excluded or ignored file never reaches the rules, under a directory target or named explicitly *)
-Theorem excluded_never_linted q rec abs rel t S ps p :
+Theorem excluded_never_linted q rec abs sp rel t S ps p :
   flags_off q -> rel_ok rel = true -> target_ok t = true -> tsources_ok S = true -> forallb path_ok ps = true ->
   spec_ok S p = false ->
-  ~ In p (run_dir q rec abs rel t (render_sources S)) /\ ~ In p (run_files q abs (render_sources S) ps).
+  ~ In p (run_dir q rec abs sp rel t (render_sources S)) /\ ~ In p (run_files q abs sp (render_sources S) ps).
 Proof.
   intros Hq Hrel Ht HS Hps Hp. rewrite run_dir_exact, run_files_exact by assumption.
   unfold spec_dir, spec_files. rewrite !filter_In. split; intros [_ H]; congruence.
 Qed.
 
 (* every other regular file beneath the target reaches the rules *)
-Theorem others_linted q abs rel t S below :
+Theorem others_linted q abs sp rel t S below :
   flags_off q -> rel_ok rel = true -> target_ok t = true -> tsources_ok S = true ->
   file_at t below -> spec_ok S (rel ++ below) = true ->
-  In (rel ++ below) (run_dir q true abs rel t (render_sources S)).
+  In (rel ++ below) (run_dir q true abs sp rel t (render_sources S)).
 Proof.
   intros Hq Hrel Ht HS Hf Hp. rewrite run_dir_exact by assumption. unfold spec_dir. apply filter_In. split; [|exact Hp].
   apply all_files_In. now exists below.
 Qed.
 
 (* with --no-recursive only direct children are candidates *)
-Theorem flat_only_children q abs rel t S p :
+Theorem flat_only_children q abs sp rel t S p :
   flags_off q -> rel_ok rel = true -> target_ok t = true -> tsources_ok S = true ->
-  In p (run_dir q false abs rel t (render_sources S)) <->
+  In p (run_dir q false abs sp rel t (render_sources S)) <->
   exists n, p = rel ++ [n] /\ In (File n) (children t) /\ spec_ok S p = true.
 Proof.
   intros Hq Hrel Ht HS. rewrite run_dir_exact by assumption. unfold spec_dir. rewrite filter_In.
@@ -320,21 +408,23 @@ Definition outside_defect_classes (abs : list string) (files : list (list string
   /\ (t_ti S = None \/ (opt_pats (t_yaml S) = [] /\ opt_pats (t_json S) = []))
   /\ opt_pats (t_json S) = [].
 
-Theorem run_dir_exact_partial q rec abs rel t S :
-  outside_defect_classes abs (all_files rec rel t) S ->
+Theorem run_dir_exact_partial q rec abs sp rel t S :
+  outside_defect_classes abs (all_files rec rel t) S -> plain_spelling sp ->
   rel_ok rel = true -> target_ok t = true -> tsources_ok S = true ->
-  run_dir q rec abs rel t (render_sources S) = spec_dir rec rel t S.
+  run_dir q rec abs sp rel t (render_sources S) = spec_dir rec rel t S.
 Proof.
-  intros [H1 [H2 [H3 [H4 H5]]]]. apply run_dir_exact_gen.
+  intros [H1 [H2 [H3 [H4 H5]]]] Hsp. apply run_dir_exact_gen.
   - split; [now right|now right|now right|right; exact H4].
+  - now right.
   - intros p Hp. right. rewrite forallb_forall in H2. specialize (H2 _ Hp). now apply negb_true_iff in H2.
 Qed.
 
-Theorem run_files_exact_partial q abs S ps :
-  outside_defect_classes abs ps S -> tsources_ok S = true -> forallb path_ok ps = true ->
-  run_files q abs (render_sources S) ps = spec_files S ps.
+Theorem run_files_exact_partial q abs sp S ps :
+  outside_defect_classes abs ps S -> plain_spelling sp -> tsources_ok S = true -> forallb path_ok ps = true ->
+  run_files q abs sp (render_sources S) ps = spec_files S ps.
 Proof.
-  intros [H1 [H2 [H3 [H4 H5]]]]. apply run_files_exact_gen.
+  intros [H1 [H2 [H3 [H4 H5]]]] Hsp. apply run_files_exact_gen.
   - split; [now right|now right|now right|right; exact H4].
+  - now right.
   - intros p Hp. right. rewrite forallb_forall in H2. specialize (H2 _ Hp). now apply negb_true_iff in H2.
 Qed.
